@@ -2,6 +2,7 @@
 // The two .cpp files are #included so that the anonymous-namespace functions
 // (quarter_round, chacha20_block, derive_counter) can be called directly.
 //
+// Every op runs under alarm(10).
 // Byte arguments are lowercase hex, "-" for empty, or `gen:<len>:<seed>` (deterministic filler,
 // same generator in lean/Driver/C09.lean). Byte results are printed by `canon`: hex up to 256
 // bytes, above that `len:<n>:fnv:<fnv1a-64>:head:<16 bytes>:tail:<16 bytes>`.
@@ -23,6 +24,7 @@
 
 #include <cstdint>
 #include <string>
+#include <unistd.h>
 #include <vector>
 
 using namespace ephemeralnet;
@@ -85,6 +87,9 @@ int main(int argc, char** argv) {
     verif::Handler h;
     h.reset = [] {};
     h.op = [](const std::vector<std::string>& t, const std::string&) -> std::string {
+        // a loop that no longer terminates must cost seconds, not the batch timeout: SIGALRM kills the
+        // process and the framework records the op as crashed (signal:SIGALRM)
+        struct Alarm { Alarm() { ::alarm(10); } ~Alarm() { ::alarm(0); } } guard;
         if (t[0] == "qr" && t.size() == 5) {
             std::uint32_t a = std::stoul(t[1], nullptr, 16), b = std::stoul(t[2], nullptr, 16),
                           c = std::stoul(t[3], nullptr, 16), d = std::stoul(t[4], nullptr, 16);
